@@ -2,6 +2,7 @@
 //! bounded-exhaustive inputs against reference models (see /verif/DESIGN.md §2.2).
 mod c01g;
 mod c02;
+mod c04w;
 mod c12;
 mod c13;
 mod c15p;
@@ -33,6 +34,7 @@ fn main() {
         "c02_map" => c02::run(&args, "C02"),
         "c13_history" => c02::run(&args, "C13"),
         "c12_watcher" => c12::run(&args),
+        "c04_wrappers" => c04w::run(&args),
         "c13_types" => c13::run(&args),
         "shimconf" => shimconf::run(&args),
         "c15_proc" => c15p::run(&args),
